@@ -1,7 +1,6 @@
 """C19 — protocol messages mean the same to both ends and framing always terminates."""
 import common
 from common import Case
-import session  # noqa: F401 — installs the deterministic scheduler BEFORE bridge_env.network_bridge is imported (session oracle)
 
 TITLE = 'Protocol messages mean the same to both ends and framing always terminates'
 LEAN_TARGETS = ['BridgeVerif.Props.C19', 'BridgeVerif.Translated.NetHelpers', 'BridgeVerif.Translated.Messages', 'BridgeVerif.Translated.ThreadsFraming']
@@ -279,6 +278,8 @@ class Spin(BaseException):
 
 
 def impl_exec(ops):
+    import session  # noqa: F401 — installs the deterministic scheduler BEFORE bridge_env.network_bridge is imported (the
+    # session oracle of extra_checks runs the real threads); done here, in the worker, never in the parent of a process pool
     from bridge_env import Bid, Card, Player, Vul
     from bridge_env.network_bridge.client import Client
     from bridge_env.network_bridge.server import PlayerThread, Server
@@ -394,6 +395,7 @@ CORRESPONDENCE_ONLY_OPS = ('M.hand', 'M.cards', 'M.bidmsg', 'M.cardstr', 'M.play
 
 
 def extra_checks(ctx):
+    import session  # noqa: F401 — see impl_exec
     """independent oracle (no model involved): what one end builds, the other end's parser reads back as the original value"""
     import random
     from bridge_env import Bid, Card, Hands, Player, Vul
